@@ -94,8 +94,8 @@ def spec(pid, theorems, prop_fn, n_quick, n_thorough, level_text, level_note, de
 
 RULE = ("harness/internal/crash/hist.go: 1-3 buckets (fixed 1Min/1H/4H/1D, variable 1Min/1H/4H), 2-6 steps (12 thorough), "
         "1-5 rows per bucket and request drawn from 12 instants over two years so that fixed slots and variable intervals "
-        "repeat (continuation writes), multi-bucket requests, optional checkpoints/rotations; classes daily-jan1 and "
-        "cross-year-unsorted generated on purpose in a quarter of the histories.  One case = one history; EVERY crash "
+        "repeat (continuation writes), multi-bucket requests, optional checkpoints/rotations; class daily-jan1 and "
+        "requests unsorted across years (the fixed class cross-year-unsorted) generated on purpose in a quarter of the histories.  One case = one history; EVERY crash "
         "prefix of its system-call trace is explored (<=150 per history in quick).  distinct = distinct history; "
         "non-trivial = more than 20 recorded system calls.")
 
